@@ -47,21 +47,25 @@ def verify(d, baseline=True):
 
 
 def detect(d, ids, tier="quick"):
+    """run checks against the seeded change applied to a scratch worktree of /repo HEAD (VF_REPO points the
+    checks at it; /repo itself is never touched, so several detections may run at once)"""
     d = os.path.abspath(d)
-    st = sh(["git", "-C", "/repo", "status", "--porcelain", "--untracked-files=no"])
-    assert st.stdout.strip() == "", "/repo has local modifications:\n" + st.stdout
-    r = sh(["git", "-C", "/repo", "apply", os.path.join(d, "patch.diff")])
+    wt = "/tmp/det-%d" % os.getpid()
+    r = sh(["git", "-C", "/repo", "worktree", "add", "-q", "--detach", wt, "HEAD"])
     assert r.returncode == 0, r.stderr
     out = {}
     try:
+        r = sh(["git", "-C", wt, "apply", os.path.join(d, "patch.diff")])
+        assert r.returncode == 0, r.stderr
         for i in ids:
             t0 = time.time()
-            env = dict(os.environ, VF_NO_EVIDENCE="1")
+            env = dict(os.environ, VF_NO_EVIDENCE="1", VF_REPO=wt, VF_REPLAY_TAG="%d" % os.getpid())
             r = subprocess.run([os.path.join(HERE, "check"), i, "--tier", tier], capture_output=True, text=True, env=env)
             lines = [l for l in r.stdout.splitlines() if l.startswith(("VIOLATION", "  cause="))]
             out[i] = {"rc": r.returncode, "wall": round(time.time() - t0, 1), "lines": [l[:300] for l in lines[:6]]}
     finally:
-        sh(["git", "-C", "/repo", "checkout", "--", "."])
+        sh(["git", "-C", "/repo", "worktree", "remove", "--force", wt])
+        shutil.rmtree(wt, ignore_errors=True)
     return out
 
 
